@@ -216,18 +216,18 @@ class HeapGen:
             elif op == 'nest':
                 # put one array inside another (aliasing through containers); refused if it closes a cycle
                 via = r.choice(['pushBack', 'set'])
+                # `set` at an index inside, at the end of, or beyond the end of the array (it grows with nils)
+                k = r.choice([0, 0, len(A), len(A) + 1 + r.below(3)]) if via == 'set' else 0
                 if (Bv is A) or reaches(Bv, A):
-                    grown = False
-                    if via == 'set' and len(A) == 0:
-                        A.append(NIL)          # the growth of `set` stays even when the store is rolled back
+                    pass                       # refused: the array stays as it was, it does not even grow
                 else:
                     if via == 'pushBack':
                         A.append(Bv)
                     else:
-                        if len(A) == 0:
+                        while len(A) <= k:
                             A.append(NIL)
-                        A[0] = Bv
-                stmts.append('{ %s } except__ { }' % ('%s pushBack %s' % (a, b) if via == 'pushBack' else '%s set [0, %s]' % (a, b)))
+                        A[k] = Bv
+                stmts.append('{ %s } except__ { }' % ('%s pushBack %s' % (a, b) if via == 'pushBack' else '%s set [%d, %s]' % (a, k, b)))
             elif op == 'selfins':
                 route = r.choice(['pushBack', 'set', 'append', 'appendwrap', 'wrap2', 'pushBackUnique'])
                 self.note('selfins:' + route)
@@ -236,9 +236,9 @@ class HeapGen:
                 elif route == 'pushBackUnique':
                     stmts.append('{ %s pushBackUnique %s } except__ { }' % (a, a))
                 elif route == 'set':
-                    if len(A) == 0:
-                        A.append(NIL)
-                    stmts.append('{ %s set [0, %s] } except__ { }' % (a, a))
+                    # refused wherever the index points: inside, at the end or beyond it — the array does not grow
+                    k = r.choice([0, len(A), len(A) + 1 + r.below(3)])
+                    stmts.append('{ %s set [%d, %s] } except__ { }' % (a, k, a))
                 elif route == 'append':
                     A.extend(list(A))       # appending an array to itself copies its elements: not a cycle
                     stmts.append('%s append %s' % (a, a))
@@ -347,11 +347,12 @@ class CycleGen:
                         A.append(H)
                     stmts.append('{ %s pushBack %s } except__ { }' % (a, h))
                 elif via == 'set':
-                    if len(A) == 0:
-                        A.append(NIL)
+                    k = r.choice([0, len(A), len(A) + 1 + r.below(2)])
                     if not cyc:
-                        A[0] = H
-                    stmts.append('{ %s set [0, %s] } except__ { }' % (a, h))
+                        while len(A) <= k:
+                            A.append(NIL)
+                        A[k] = H
+                    stmts.append('{ %s set [%d, %s] } except__ { }' % (a, k, h))
                 else:
                     if not cyc:
                         A.append(H)
